@@ -128,7 +128,14 @@ func runReplay(o *checkOpts, src, pkgDir, test, hints string) []map[string]inter
 	ob, _ := json.Marshal(ov)
 	ovPath := filepath.Join(tmp, "ov.json")
 	os.WriteFile(ovPath, ob, 0o644)
-	cmd := exec.Command("go", "test", "-overlay", ovPath, "-vet=off", "-v", "-count=1", "-timeout", "600s", "-run", "^"+test+"$", ".")
+	args := []string{"test", "-overlay", ovPath, "-vet=off", "-v", "-count=1", "-timeout", "600s", "-run", "^" + test + "$", "."}
+	// C12 claims freedom from data races: its bounded harness (goroutines printing concurrently, operands shared
+	// between them) runs under the race detector
+	race := strings.HasPrefix(test, "TestVerifBoundedC12")
+	if race {
+		args = append([]string{"test", "-race"}, args[1:]...)
+	}
+	cmd := exec.Command("go", args...)
 	cmd.Dir = dir
 	cmd.Env = append(os.Environ(), "GOFLAGS=-mod=mod", "GOPROXY=off", "GOSUMDB=off", "GOTOOLCHAIN=local", "REPLAY_HINTS="+hints, "VERIF_TIER="+o.tier, fmt.Sprintf("VERIF_SEED=%d", o.seed), "GOCACHE="+goCache())
 	done := make(chan struct{})
@@ -160,6 +167,17 @@ func runReplay(o *checkOpts, src, pkgDir, test, hints string) []map[string]inter
 				fails = append(fails, m)
 			}
 		}
+	}
+	if i := strings.Index(string(out), "WARNING: DATA RACE"); i >= 0 {
+		txt := string(out)[i:]
+		if len(txt) > 2500 {
+			txt = txt[:2500]
+		}
+		fails = append(fails, map[string]interface{}{"call": "go test -race " + test + " (goroutines printing concurrently on distinct destinations)", "output": txt, "why": "the race detector reports a data race"})
+	}
+	if race {
+		lastBounded = append(lastBounded, map[string]interface{}{"property": "C12", "law": "no data race is reported by the Go race detector while the harness above runs (all of its sequential and concurrent parts)", "cases": 1, "nontrivial": 1,
+			"nontrivial_rule": "the whole harness run", "bound": "the schedules the Go scheduler produced during this run (sampled, not enumerated)", "exhaustive": false})
 	}
 	finished := strings.Contains(string(out), "--- PASS: "+test) || strings.Contains(string(out), "--- FAIL: "+test)
 	if len(fails) == 0 && !finished {
